@@ -248,17 +248,23 @@ func (cn *canoner) c1(v ssa.Value, d int) string {
 		return "(" + cn.c(x.X, d+1) + " " + x.Op.String() + " " + cn.c(x.Y, d+1) + ")"
 	case *ssa.Phi:
 		set := map[string]bool{}
+		cyc := false
 		for _, e := range x.Edges {
+			if e == x || dependsOn(e, x, map[ssa.Value]bool{}, 0) {
+				cyc = true
+				continue
+			}
 			set[cn.c(e, d+1)] = true
 		}
 		var parts []string
 		for s := range set {
-			if s != "loop" {
-				parts = append(parts, s)
-			}
+			parts = append(parts, s)
 		}
 		sort.Strings(parts)
-		if len(parts) == 1 && len(set) == 1 {
+		if cyc {
+			parts = append(parts, "↻")
+		}
+		if len(parts) == 1 {
 			return parts[0]
 		}
 		return "phi(" + strings.Join(parts, "|") + ")"
@@ -313,6 +319,27 @@ func (cn *canoner) c1(v ssa.Value, d int) string {
 		return "select"
 	}
 	return fmt.Sprintf("?%T", v)
+}
+
+// dependsOn: does v transitively (through value operands) depend on target?
+func dependsOn(v, target ssa.Value, seen map[ssa.Value]bool, depth int) bool {
+	if v == target {
+		return true
+	}
+	if seen[v] || depth > 40 {
+		return false
+	}
+	seen[v] = true
+	in, ok := v.(ssa.Instruction)
+	if !ok {
+		return false
+	}
+	for _, op := range in.Operands(nil) {
+		if op != nil && *op != nil && dependsOn(*op, target, seen, depth+1) {
+			return true
+		}
+	}
+	return false
 }
 
 // arrayElems recognises the SSA lowering of a variadic argument list: an
